@@ -245,6 +245,39 @@ pub fn file_text(kind: &str, n: u32, variant: u32) -> String {
             1 => format!("---@enum (private) Helper{n}\nlocal Helper{n} = {{ One = 1 }}\nreturn Helper{n}\n"),
             _ => format!("---@type Helper{n}\nlocal h{n} = {{}}\nreturn h{n}\n"),
         },
+        // ---- modules whose chunk return is neither a local name, a table literal nor a closure
+        "mr_a" => match v {
+            0 => format!("local M = {{}}\nlocal mt = {{ __index = M }}\nfunction M.run() return {n} end\nreturn setmetatable(M, mt)\n"),
+            1 => format!("local impl = {{ api = {{ run = function() return {n} end, version = \"1.{n}\" }} }}\nreturn impl.api\n"),
+            _ => format!("return \"1.{n}.0\"\n"),
+        },
+        "mr_b" => match v {
+            0 => format!("return require(\"mr.a{n}\")\n"),
+            1 => format!("return function(x) return x + {n} end\n"),
+            _ => format!("return {n}\n"),
+        },
+        "mr_use" => match v {
+            0 => format!("local a{n} = require(\"mr.a{n}\")\nlocal b{n} = require(\"mr.b{n}\")\nlocal r{n} = a{n}.run\nreturn r{n}\n"),
+            1 => format!("local b{n} = require(\"mr.b{n}\")\nreturn b{n}\n"),
+            _ => format!("local a{n} = require(\"mr.a{n}\")\nreturn a{n}\n"),
+        },
+        // ---- a table literal annotated as a class (its fields are re-homed from the literal to
+        // the type), a typed global extended through `G.x = ...`, and a user
+        "tc_def" => match v {
+            0 => format!("---shape doc\n---@class Shape{n}\nlocal Shape{n} = {{ sides = 4, name = \"sq\" }}\n\nfunction Shape{n}.area()\n    return Shape{n}.sides\nend\n\n---@enum Mode{n}\nlocal Mode{n} = {{ On = 1, Off = 2 }}\n\nreturn Shape{n}\n"),
+            1 => format!("---shape doc\n---@class Shape{n}\nlocal Shape{n} = {{ edges = 4, name = \"sq\" }}\n\nfunction Shape{n}.area()\n    return Shape{n}.edges\nend\n\n---@enum Mode{n}\nlocal Mode{n} = {{ On = 1, Odd = 2 }}\n\nreturn Shape{n}\n"),
+            _ => format!("-- moved down\n\n---shape doc\n---@class Shape{n}\nlocal Shape{n} = {{ sides = 4, name = \"sq\" }}\n\n---@enum Mode{n}\nlocal Mode{n} = {{ On = 1, Off = 2 }}\n\nreturn Shape{n}\n"),
+        },
+        "tc_glob" => match v {
+            0 => format!("---@class GShape{n}\n---@field base integer\n\n---@type GShape{n}\nGS{n} = {{}}\nGS{n}.bar = 1\nGS{n}.baz = \"z\"\n"),
+            1 => format!("---@class GShape{n}\n---@field base integer\n\n---@type GShape{n}\nGS{n} = {{}}\nGS{n}.bat = 1\nGS{n}.baz = \"z\"\n"),
+            _ => format!("\n\n---@class GShape{n}\n---@field base integer\n\n---@type GShape{n}\nGS{n} = {{}}\nGS{n}.bar = 1\n"),
+        },
+        "tc_use" => match v {
+            0 => format!("local S{n} = require(\"tc.def{n}\")\nlocal a{n} = S{n}.sides\nlocal b{n} = GS{n}.bar\n---@type Mode{n}\nlocal m{n} = 1\nreturn a{n}\n"),
+            1 => format!("local S{n} = require(\"tc.def{n}\")\nlocal a{n} = S{n}.edges\nlocal b{n} = GS{n}.bat\nreturn a{n}, b{n}\n"),
+            _ => format!("---@type Shape{n}\nlocal s{n} = {{}}\nlocal c{n} = s{n}.name\nlocal d{n} = GS{n}.base\nreturn c{n}\n"),
+        },
         _ => format!("return {n}\n"),
     }
 }
@@ -271,6 +304,8 @@ pub fn group(kind: &str, n: u32) -> Vec<FileSpec> {
         "special" => vec![f(format!("sp/mod{n}.lua"), "sp_mod"), f(format!("sp/use{n}.lua"), "sp_use")],
         "modext" => vec![f(format!("mx/base{n}.lua"), "mx_base"), f(format!("mx/ext{n}.lua"), "mx_ext"), f(format!("mx/use{n}.lua"), "mx_use")],
         "private" => vec![f(format!("pv/a{n}.lua"), "priv_a"), f(format!("pv/b{n}.lua"), "priv_b")],
+        "modret" => vec![f(format!("mr/a{n}.lua"), "mr_a"), f(format!("mr/b{n}.lua"), "mr_b"), f(format!("mr/use{n}.lua"), "mr_use")],
+        "tblclass" => vec![f(format!("tc/def{n}.lua"), "tc_def"), f(format!("tc/glob{n}.lua"), "tc_glob"), f(format!("tc/use{n}.lua"), "tc_use")],
         "inherit" => vec![
             f(format!("inh/bases{n}.lua"), "inh_bases"),
             f(format!("inh/part_a{n}.lua"), "inh_part_a"),
@@ -281,7 +316,7 @@ pub fn group(kind: &str, n: u32) -> Vec<FileSpec> {
     }
 }
 
-pub const GROUP_KINDS: &[&str] = &["class", "glob", "mod", "cycle", "types", "diag", "broken", "meta", "lib", "inherit", "member", "generic", "overload", "namespace", "callable", "flow", "modext", "private", "special"];
+pub const GROUP_KINDS: &[&str] = &["class", "glob", "mod", "cycle", "types", "diag", "broken", "meta", "lib", "inherit", "member", "generic", "overload", "namespace", "callable", "flow", "modext", "private", "special", "modret", "tblclass"];
 
 /// Draw a workspace of `lo..=hi` files.
 pub fn gen_workspace(r: &mut Rng, lo: usize, hi: usize) -> Vec<FileSpec> {
